@@ -302,6 +302,7 @@ pub fn world_cfg(topo: Topology, seed: u64) -> WorldCfg {
         tracers: 1,
         alt_targets: Vec::new(),
         blackouts: Vec::new(),
+        reroutes: Vec::new(),
     }
 }
 
